@@ -208,7 +208,7 @@ class SimplicialComplex(Hypergraph):
         remove_node
 
         """
-        for n in nodes:
+        for n in list(nodes):  # `nodes` may be a live view of this complex
             if n not in self:
                 warn(f"Node {n} not in simplicial complex")
                 continue
@@ -786,7 +786,7 @@ class SimplicialComplex(Hypergraph):
 
         """
         all_ids = set(self._edge.keys())
-        for idx in ebunch:
+        for idx in list(ebunch):  # `ebunch` may be a live view of this complex
             if idx in all_ids and idx not in self._edge.keys():
                 continue
             self.remove_simplex_id(idx)
